@@ -16,4 +16,6 @@ def run(ctx):
     ctx.rule("R-SUBSCRIBER-RULE", "the dispatch predicate: message_acceptable <=> NORMAL and (dest == GLOBAL or held address == dest)", floor=1)
     ca.message_acceptable_rule(ctx)
     ca.claim_only(ctx)
+    ctx.rule("R-NORMAL-PAIR", "a CA that reads as operational already holds its address (address stored before the state; answers come from that address)", floor=3)
+    ca.normal_pair(ctx)
     return "request encoding/decoding, dispatch guard, handler guard formula and fan-out decided for all PGNs and addresses"
